@@ -87,12 +87,14 @@ def monkeypatch_template_render(template_cls: Type[Template]) -> None:
         # with context.render_context.push_state(self):
         #  ---------------- OUR CHANGES START ----------------
         # We parametrized `isolated_context`, which was `True` in the original method.
-        if not hasattr(self, "_djc_is_component_nested"):
-            isolated_context = True
-        else:
-            # MUST be `True` for templates that are NOT import with `{% extends %}` tag,
-            # and `False` otherwise.
-            isolated_context = not self._djc_is_component_nested
+        # MUST be `True` for templates that are NOT import with `{% extends %}` tag,
+        # and `False` otherwise.
+        isolated_context = not getattr(self, "_djc_is_component_nested", False)
+        # Component templates may be shared (with other threads, with plain `{% include %}`),
+        # so for them the flag travels with the Context of that one render. See `_with_template_nested_flag`.
+        if getattr(context, "_djc_nested_template", None) is self:
+            context._djc_nested_template = None
+            isolated_context = False
 
         with context.render_context.push_state(self, isolated_context=isolated_context):
             #  ---------------- OUR CHANGES END ----------------
